@@ -23,8 +23,25 @@ for pid in sys.argv[1:]:
             pass
     if prior:
         n = "4"
+        # files the property is anchored in that no earlier change has touched
+        touched = set()
+        for m in glob.glob("/verif/seeded/*/meta.json"):
+            try:
+                for f in json.load(open(m)).get("files", []):
+                    touched.add(f.split(" ")[0])
+            except Exception:
+                pass
+        fresh = []
+        for pat in p["anchors"].get("files", []):
+            for f in sorted(glob.glob(os.path.join("/repo", pat), recursive=True)):
+                rel = os.path.relpath(f, "/repo")
+                if os.path.isfile(f) and rel not in touched and not rel.endswith("_test.go") and (rel.startswith("pkg/") or rel.startswith("cmd/")):
+                    fresh.append(rel)
+        fresh = sorted(set(fresh))[:25]
         mech = "\n".join("  - %s (%s)" % (a["name"], a["where"]) for a in p["anchors"].get("mechanism", []))
         prop += "\nMechanisms the property rests on:\n" + mech + "\n"
+        if fresh:
+            prop += "\nCode the property depends on that no earlier change has touched yet - prefer sites in these files (and in the tables / templates they hold):\n  " + "\n  ".join(fresh) + "\n"
         prop += "\nAn earlier round already produced these changes - do NOT repeat them or close variants; find other root causes, other code sites, other parts of the statement:\n" + "\n".join(prior) + "\n"
     open("/tmp/wt/%s.prompt.txt" % pid, "w").write(tmpl.replace("__WT__", wt).replace("__PROP__", prop).replace("__N__", n))
     print("ok", pid)
